@@ -458,7 +458,7 @@ class HTMLSerializer(XHTMLSerializer):
         }, cache=cache))
         if doctype:
             self.filters.append(DocTypeInserter(doctype))
-        self.cache = True
+        self.cache = cache
 
     def __call__(self, stream):
         boolean_attrs = self._BOOLEAN_ATTRS
